@@ -635,6 +635,38 @@ def spec_panic_sites(prog, rep=None):
                         allowed.add((ITER + "::try_recover", "STRETCH@%d" % b2))
     except Exception:
         pass
+    # an assertion in try_recover that restates the monotonicity of the cursor (`debug_assert!(self.current_offset() >= original_position)`):
+    # the panic block is the failing side of a switch on a comparison both of whose operands come from current_offset().  It is the fact the
+    # reviewed argument for the distance subtraction establishes (REVIEWED, premises RECOVER-MONO-PREMISE), stated as an assertion.
+    try:
+        from rules.writer import local_sources as _ls2
+        tr = prog.bodies.get(ITER + "::try_recover")
+        if tr is not None:
+            preds = tr.preds()
+            CO = "call:" + ITER + "::current_offset"
+            for b in sorted(tr.live_blocks()):
+                t = tr.blocks[b]["term"]
+                if t["k"] != "switch" or t["discr"].get("k") not in ("copy", "move") or t["discr"]["place"]["proj"]:
+                    continue
+                dl = t["discr"]["place"]["local"]
+                cmpst = [st for _, _, st in tr.statements() if st["k"] == "assign" and st["place"]["local"] == dl and not st["place"]["proj"]
+                         and st["rv"].get("k") == "binop" and st["rv"].get("op") in ("Ge", "Gt", "Le", "Lt")]
+                if len(cmpst) != 1:
+                    continue
+                ops = [cmpst[0]["rv"]["a"], cmpst[0]["rv"]["b"]]
+                if not all(o.get("k") in ("copy", "move") and CO in _ls2(tr, o["place"]["local"]) for o in ops):
+                    continue
+                # blocks dominated by one side of this switch that end in a panic call and cannot return
+                for v, tg in list(t["targets"]) + [(None, t["otherwise"])]:
+                    if tg is None:
+                        continue
+                    reach = tr.reachable_from(tg)
+                    if any(tr.blocks[x]["term"]["k"] == "return" for x in reach) or len(reach) > 8:
+                        continue
+                    for x in reach:
+                        allowed.add((ITER + "::try_recover", "MONO@%d" % x))
+    except Exception:
+        pass
     return allowed
 
 
@@ -796,6 +828,9 @@ def _classify(res, allowed_spec, rep, prefix, fn_filter=None, kinds=None):
                     rep.assumed.append(A_OFF)
                 continue
             rv = None
+            if fn == ITER + "::try_recover" and kind == "PANIC" and (fn, "MONO@%d" % o["bb"]) in allowed_spec:
+                rv = REVIEWED[(ITER + "::try_recover", "ASSERT", "Overflow(Sub)(")] + " [here stated as an assertion on current_offset()]"
+                rep.reviewed_used = getattr(rep, "reviewed_used", set()) | {ITER + "::try_recover"}
             for (rfn, rkind, rdesc), arg in REVIEWED.items():
                 if (fn == rfn or (rfn.endswith("{closure#") and fn.startswith(rfn))) and kind == rkind and desc.startswith(rdesc):
                     rv = arg
